@@ -213,6 +213,91 @@ func (p *PFCPIface) VerifSnapshot() map[string]interface{} {
 	return out
 }
 
+// verifSnapshot summarises the identifier pools of the UP4 plug-in: for every pool the identifiers
+// that are NOT free ("out"), identifiers that occur more than once in a queue ("dup"), and the
+// plug-in's own record of who holds what.
 func (up4 *UP4) verifSnapshot() map[string]interface{} {
-	return map[string]interface{}{}
+	out := map[string]interface{}{}
+
+	outOfSet := func(pool interface{ Contains(...interface{}) bool }, from, to int, mk func(int) interface{}) []int {
+		ids := []int{}
+
+		for i := from; i < to; i++ {
+			if !pool.Contains(mk(i)) {
+				ids = append(ids, i)
+			}
+		}
+
+		return ids
+	}
+
+	outOfQueue := func(q []uint8, from, to int) ([]int, []int) {
+		cnt := map[int]int{}
+		for _, x := range q {
+			cnt[int(x)]++
+		}
+
+		ids, dup := []int{}, []int{}
+
+		for i := from; i < to; i++ {
+			if cnt[i] == 0 {
+				ids = append(ids, i)
+			}
+		}
+
+		for x, n := range cnt {
+			if n > 1 || x < from || x >= to {
+				dup = append(dup, x)
+			}
+		}
+
+		return ids, dup
+	}
+
+	if len(up4.counters) > 0 && up4.counters[preQosCounterID].counterIDsPool != nil {
+		c := up4.counters[preQosCounterID]
+		out["ctrOut"] = outOfSet(c.counterIDsPool, 0, int(c.maxSize), func(i int) interface{} { return uint64(i) })
+		out["ctrSize"] = int(c.maxSize)
+	}
+
+	if up4.appMeterCellIDsPool != nil {
+		out["appCellOut"] = outOfSet(up4.appMeterCellIDsPool, 1, 1024, func(i int) interface{} { return uint32(i) })
+	}
+
+	if up4.sessMeterCellIDsPool != nil {
+		out["sessCellOut"] = outOfSet(up4.sessMeterCellIDsPool, 1, 1024, func(i int) interface{} { return uint32(i) })
+	}
+
+	up4.tunnelPeerMu.Lock()
+	out["peerOut"], out["peerDup"] = outOfQueue(up4.tunnelPeerIDsPool, 2, maxGTPTunnelPeerIDs+2)
+
+	peers := []map[string]interface{}{}
+	for k, v := range up4.tunnelPeerIDs {
+		peers = append(peers, map[string]interface{}{"id": int(v.id), "dst": fmt.Sprint(k.tunnelIP4Dst), "users": v.usedBy.Cardinality()})
+	}
+
+	out["peers"] = peers
+	up4.tunnelPeerMu.Unlock()
+
+	up4.applicationMu.Lock()
+	out["appIdOut"], out["appIdDup"] = outOfQueue(up4.applicationIDsPool, 1, maxApplicationIDs+1)
+
+	apps := []map[string]interface{}{}
+	for _, v := range up4.applicationIDs {
+		apps = append(apps, map[string]interface{}{"id": int(v.id), "users": v.usedBy.Cardinality()})
+	}
+
+	out["apps"] = apps
+	up4.applicationMu.Unlock()
+
+	meters := []map[string]interface{}{}
+	for k, v := range up4.meters {
+		meters = append(meters, map[string]interface{}{"fseid": fmt.Sprint(k.fseid), "qer": int(k.qerID), "type": int(v.meterType),
+			"ul": int(v.uplinkCellID), "dl": int(v.downlinkCellID)})
+	}
+
+	out["meters"] = meters
+	out["ueMap"] = len(up4.ueAddrToFSEID)
+
+	return out
 }
